@@ -211,7 +211,9 @@ func checkAccountedFormula(P *core.Program, R *core.Report) {
 					// target must be an element of accountedPool.NonAmmPoolTokens (IndexAddr), not a local copy
 					ia, isIA := addr.X.(*ssa.IndexAddr)
 					if !isIA {
-						if _, isAlloc := addr.X.(*ssa.Alloc); isAlloc {
+						if al, isAlloc := addr.X.(*ssa.Alloc); isAlloc && al.Comment != "complit" {
+							// a write into a by-value copy of an element (range variable) is lost;
+							// a coin literal being assembled (to be appended) is not that
 							nonAmmOK = false
 							total = nil
 						}
